@@ -266,6 +266,11 @@ def run(check, an: Analysis):
     for field, fresh in (('_buffer', True), ('_notification', True), ('_read_mutex', True), ('_closed', False)):
         made = rules.constructor_field(an, QUEUE, field)
         ok = made is not None and (not fresh or isinstance(made, (ast.Call, ast.Dict, ast.List)))
+        if not fresh and made is None:
+            # an immutable default in the class body is rebound per instance when it changes
+            default = an.cls(QUEUE).attrs.get(field)
+            ok = isinstance(default, ast.Constant)
+            made = default
         check.instance('D', 'Queue.__init__:%s' % field, ok,
                        where_fn(an.method(QUEUE, '__init__')),
                        'set per instance by the constructor: %s' % (
